@@ -27,12 +27,12 @@ REQUIRED = {
     "quick": {"in_process_pairs": 24, "child_processes_compared": 8, "class/correlated_fundamentals": 8,
               "class/all_builtin_event_classes": 8, "class/nontrivial_run": 16, "different_seed_pairs": 10,
               "settings_objects_compared": 24, "near_twin_runs_before": 1, "refused_runs_before": 4,
-              "class/cheap_stock_run_with_sub_tick_draws_compared": 1,
+              "class/cheap_stock_run_with_sub_tick_draws_compared": 1, "class/crowd_run_compared_with_and_without_a_logger": 2,
               "class/user_market_class_drawing_from_its_generator_compared_across_hash_seeds": 2},
     "thorough": {"in_process_pairs": 500, "child_processes_compared": 300, "class/correlated_fundamentals": 200,
                  "class/all_builtin_event_classes": 200, "class/nontrivial_run": 400, "different_seed_pairs": 200,
                  "settings_objects_compared": 500, "near_twin_runs_before": 30, "refused_runs_before": 100,
-                 "class/cheap_stock_run_with_sub_tick_draws_compared": 20,
+                 "class/cheap_stock_run_with_sub_tick_draws_compared": 20, "class/crowd_run_compared_with_and_without_a_logger": 30,
                  "class/user_market_class_drawing_from_its_generator_compared_across_hash_seeds": 30},
 }
 CASE_TIMEOUT_S = 600
@@ -180,6 +180,12 @@ def gen_case(rng, tier, idx):
         cfg["EvMistake"]["target"] = names[2]
         cfg["EvLimit"]["targetMarkets"] = [names[1]]
         cfg["EvHalt"]["targetMarkets"] = [names[2]]
+    if idx % 8 == 6:
+        from .c10 import gen_crowd_case
+
+        c = gen_crowd_case(rng)
+        c.update({"profile": "kitchen-sink", "all_events": False, "corr": False, "children": False, "individual": False})
+        return c
     if idx % 8 == 5:
         # a cheap stock: a price of a few ticks and FCN agents quoting with a normally distributed margin of more than a
         # tick, so that drawn prices fall below one tick a few times per run (rarely below zero, which the agent
@@ -357,6 +363,18 @@ def run_case(case, res):
         res.violation("repro", "same-configuration-and-seed-gave-different-outcomes-in-one-process",
                       {"digest1": d1, "digest2": d2, "stats1": st1, "stats2": st2, "error2": repr(out2.error),
                        "global_rng_calls_during_first_run": tw.calls, "sections_of_a_third_run": s1p.get("sections")})
+    if case.get("crowd"):
+        # ... and of nothing else: the same run without a logger (optional argument left out) trades identically -
+        # everything but the records themselves (agents' answers and notifications, series, books, holdings)
+        _, sa, oa = run_digest(case, settings_obj=copy.deepcopy(pristine), parts=True)
+        _, sb, ob = run_digest(case, settings_obj=copy.deepcopy(pristine), parts=True, with_logger=False)
+        res.count("class/crowd_run_compared_with_and_without_a_logger")
+        a_ = {k: v for k, v in (sa.get("sections") or {}).items() if k != "log"}
+        b_ = {k: v for k, v in (sb.get("sections") or {}).items() if k != "log"}
+        if oa.error is not None or ob.error is not None or a_ != b_:
+            res.violation("repro", "outcome-depends-on-whether-a-logger-is-attached",
+                          {"with_logger": a_, "without_logger": b_, "errors": [repr(oa.error), repr(ob.error)],
+                           "fills": [sa.get("fills"), sb.get("fills")]})
     if tw.calls:
         res.count("runs_that_drew_from_global_generators(diagnosis)")
     # a different runner seed must give a different outcome (guards against a digest that observes nothing)
